@@ -47,6 +47,10 @@ pub const FAMILIES: &[&str] = &[
     "pp_error_in_include",
     // parser
     "parse_many", "parse_register", "parse_eof", "parse_in_namespace", "parse_misc", "lex_misc", "pp_misc",
+    // rejections introduced (or moved from a panic / a silent acceptance to a diagnostic) by fix batch 2
+    "attr_dup", "struct_base_methods", "fn_template_default", "template_value_signature", "const_part_write",
+    "out_arg_place", "default_arg_wrong", "enum_incomplete", "rayquery_flags", "pp_else_after_else", "pp_if_across_include",
+    "export_fix2", "export_msl_fix2", "layout_fix2", "member_fix2", "redef_fn_global",
 ];
 
 const POOL: &[&str] = &[
@@ -1045,6 +1049,8 @@ pub fn diag_program(family: &str, rng: &mut Rng) -> Option<DiagProg> {
                 s.push_str(&format!("    helper_{}();\n", n));
             }
             s.push_str("}\n");
+            // form 1 (two outputtopology attributes) reached Metal's MultipleMeshTopology before fix 0f5be73; the type
+            // checker now rejects the second attribute on every target (FunctionAttributeDuplicate, see also `attr_dup`)
             match rng.below(3) {
                 0 => s.push_str("Pipeline P\n{\n    ComputeShader = entry;\n}\n"),
                 1 => s.push_str("[outputtopology(\"triangle\")]\n[outputtopology(\"line\")]\n[numthreads(1, 1, 1)]\nvoid ms(out vertices Vert v[3], out indices uint3 t[1])\n{\n    SetMeshOutputCounts(3, 1);\n}\nfloat4 ps() : SV_Target0\n{\n    return float4(0, 0, 0, 1);\n}\nPipeline P\n{\n    MeshShader = ms;\n    PixelShader = ps;\n}\n"),
@@ -1263,6 +1269,368 @@ pub fn diag_program(family: &str, rng: &mut Rng) -> Option<DiagProg> {
             for u in &uses {
                 s.push_str(u);
             }
+            s.push_str(COMPUTE_TAIL);
+        }
+        // ---------------------------------------------------------------- fix batch 2
+        "attr_dup" => {
+            // 0f5be73: a second attribute of a kind the function already has; k functions, each an offender
+            let ns = names(rng, k);
+            let kinds: [(&str, &str, &str); 4] = [
+                ("numthreads(8, 4, 1)", "numthreads(4, 8, 1)", "void f_{}()\n{\n}\n"),
+                ("WaveSize(32)", "WaveSize(64)", "[numthreads(1, 1, 1)]\nvoid f_{}()\n{\n}\n"),
+                ("outputtopology(\"triangle\")", "outputtopology(\"line\")", "[numthreads(1, 1, 1)]\nvoid f_{}()\n{\n}\n"),
+                ("maxvertexcount(3)", "maxvertexcount(6)", "void f_{}()\n{\n}\n"),
+            ];
+            for n in &ns {
+                let (a, b, body) = *rng.pick(&kinds);
+                let (a, b) = if rng.chance(1, 2) { (a, b) } else { (b, a) };
+                let sep = if rng.chance(1, 2) { "\n" } else { " " };
+                if rng.chance(1, 3) {
+                    s.push_str(&format!("[{}]{}[{}]{}[{}]\n", a, sep, b, sep, a));
+                } else {
+                    s.push_str(&format!("[{}]{}[{}]\n", a, sep, b));
+                }
+                s.push_str(&body.replace("{}", n));
+            }
+            s.push_str(COMPUTE_TAIL);
+        }
+        "struct_base_methods" => {
+            // 0a6a37c: k base structs with methods, k structs inheriting from them
+            let ns = names(rng, k);
+            for n in &ns {
+                s.push_str(&format!("struct Base_{}\n{{\n    int m_{};\n    void method_{}()\n    {{\n    }}\n}};\n", n, n, n));
+            }
+            let mut ds: Vec<String> = ns.iter().map(|n| format!("struct Derived_{} : Base_{}\n{{\n    int extra_{};\n}};\n", n, n, n)).collect();
+            shuffle(rng, &mut ds);
+            for d in &ds {
+                s.push_str(d);
+            }
+            s.push_str(COMPUTE_TAIL);
+        }
+        "fn_template_default" => {
+            // 963c475: default template arguments on function templates
+            let ns = names(rng, k);
+            let forms = [
+                "template<int N_{} = 1>\nvoid f_{}()\n{\n}\n", "template<typename T_{} = float>\nvoid f_{}(T_{} p)\n{\n}\n",
+                "template<typename T_{}, int N_{} = 2>\nvoid f_{}()\n{\n}\n", "template<typename T_{} = int>\nT_{} f_{}();\n",
+            ];
+            for n in &ns {
+                s.push_str(&rng.pick(&forms).replace("{}", n));
+            }
+            s.push_str(COMPUTE_TAIL);
+        }
+        "template_value_signature" => {
+            // 0523738: a template value parameter named by the signature of the function template
+            let ns = names(rng, k);
+            let forms = [
+                "template<int N_{}>\nvoid f_{}(float p[N_{}])\n{\n}\n", "template<int N_{}>\nvoid f_{}(int p = N_{})\n{\n}\n",
+                "template<uint N_{}>\nvector<float, N_{}> f_{}()\n{\n    return 0;\n}\n", "template<int N_{}, typename T_{}>\nvoid f_{}(T_{} a, float b[N_{} + 1])\n{\n}\n",
+            ];
+            for n in &ns {
+                s.push_str(&rng.pick(&forms).replace("{}", n));
+            }
+            s.push_str(COMPUTE_TAIL);
+        }
+        "const_part_write" => {
+            // 95baa20, 4575004, 2065f10: writes to a part of a const object, of a temporary, of a cbuffer block, of a mips view
+            let ns = names(rng, k);
+            s.push_str("struct Pod\n{\n    int q;\n    float3 v;\n    float arr[2];\n};\nTexture2D<float4> g_tex;\ncbuffer Block\n{\n    float4 cv;\n    float ca[2];\n    Pod cp;\n};\nfloat3 make()\n{\n    return 0;\n}\nPod make_pod()\n{\n    return (Pod)0;\n}\n");
+            s.push_str("void body()\n{\n    const Pod cs = (Pod)0;\n    const float carr[3] = { 1, 2, 3 };\n    const float3 cvec = 0;\n");
+            let forms = [
+                "    cs.q = {};\n", "    cs.v.x = {};\n", "    cs.arr[1] = {};\n", "    cs.q++;\n", "    --cs.v.y;\n", "    carr = carr;\n", "    carr[0] = {};\n", "    cvec.x = {};\n",
+                "    cvec[1] += {};\n", "    make()[0] = {};\n", "    make().x = {};\n", "    make_pod().q = {};\n", "    make()[1]++;\n", "    cv.x = {};\n", "    ca[0]++;\n", "    cv = {};\n",
+                "    cp.q = {};\n", "    cp.arr[0] -= {};\n", "    g_tex.mips[0] = g_tex.mips[1];\n", "    g_tex.mips[{}][uint2(0, 0)] = 0;\n",
+            ];
+            for (i, _) in ns.iter().enumerate() {
+                s.push_str(&rng.pick(&forms).replace("{}", &format!("{}", i + 1)));
+            }
+            s.push_str("}\n");
+            s.push_str(COMPUTE_TAIL);
+        }
+        "out_arg_place" => {
+            // b359800, 3758fdd: out / inout arguments that do not name a mutable object of the parameter's type
+            let ns = names(rng, k);
+            s.push_str("struct Pod\n{\n    float3 v;\n    int q;\n};\ncbuffer Block\n{\n    float3 cb_v;\n};\nvoid give(out float3 p)\n{\n    p = 0;\n}\nvoid both(inout int p)\n{\n    p = p + 1;\n}\nfloat3 make()\n{\n    return 0;\n}\nPod make_pod()\n{\n    return (Pod)0;\n}\n");
+            s.push_str("void body()\n{\n    const Pod cs = (Pod)0;\n    int1 one;\n    float1x1 m11;\n    uint u;\n    float f;\n    int3 i3;\n");
+            let forms = [
+                "    give(cs.v);\n", "    both(cs.q);\n", "    give(make());\n", "    both(make_pod().q);\n", "    both(one);\n", "    both(u);\n", "    both(f);\n",
+                "    give(i3);\n", "    give(cb_v);\n", "    both(m11);\n", "    both(make()[0]);\n",
+            ];
+            for _ in &ns {
+                s.push_str(*rng.pick(&forms));
+            }
+            s.push_str("}\n");
+            s.push_str(COMPUTE_TAIL);
+        }
+        "default_arg_wrong" => {
+            // 5ae792a: a default argument that can not be converted to the type of its parameter
+            let ns = names(rng, k);
+            s.push_str("struct Pod\n{\n    int q;\n};\nTexture2D<float4> g_tex;\n");
+            let forms = [
+                "void f_{}(int p = (Pod)0)\n{\n}\n", "void f_{}(Pod p = 1)\n{\n}\n", "void f_{}(float3 p = float2(1, 2))\n{\n}\n", "void f_{}(int a, float4 p = g_tex)\n{\n}\n",
+                "void f_{}(Texture2D<float4> p = 0)\n{\n}\n", "void f_{}(float2x2 p = float3(1, 2, 3))\n{\n}\n",
+            ];
+            let mut ds: Vec<String> = ns.iter().map(|n| rng.pick(&forms).replace("{}", n)).collect();
+            shuffle(rng, &mut ds);
+            for d in &ds {
+                s.push_str(d);
+            }
+            s.push_str(COMPUTE_TAIL);
+        }
+        "enum_incomplete" => {
+            // 54a869d, 03679c6: an enum named as a type inside its own definition; an enum that takes the name of a namespace
+            let ns = names(rng, k + 1);
+            if rng.chance(1, 2) {
+                let forms = ["    {} = ({0})A_{0}", "    {} = sizeof({0})", "    {} = ({0})0", "    {} = (int)({0})1"];
+                let mut ds: Vec<String> = Vec::new();
+                for n in &ns[1..] {
+                    let e = format!("E_{}", n);
+                    let val = rng.pick(&forms).replace("{0}", &e).replacen("{}", &format!("B_{}", n), 1);
+                    ds.push(format!("enum {}\n{{\n    A_{},\n{}\n}};\n", e, e, val));
+                }
+                shuffle(rng, &mut ds);
+                for d in &ds {
+                    s.push_str(d);
+                }
+            } else {
+                for n in &ns[1..] {
+                    s.push_str(&format!("namespace N_{}\n{{\n    static const int x_{} = 1;\n}}\n", n, n));
+                }
+                let mut ds: Vec<String> = ns[1..].iter().map(|n| format!("enum N_{}\n{{\n    V_{}\n}};\n", n, n)).collect();
+                shuffle(rng, &mut ds);
+                for d in &ds {
+                    s.push_str(d);
+                }
+            }
+            s.push_str(COMPUTE_TAIL);
+        }
+        "rayquery_flags" => {
+            // 1af5148: RayQuery flags outside 32 bits
+            let ns = names(rng, k);
+            s.push_str("void body()\n{\n");
+            for n in &ns {
+                match rng.below(3) {
+                    0 => s.push_str(&format!("    RayQuery<{}> q_{};\n", 0x1_0000_0000u64 + rng.below(1 << 16), n)),
+                    1 => s.push_str(&format!("    RayQuery<-{}> q_{};\n", 1 + rng.below(100), n)),
+                    _ => s.push_str(&format!("    RayQuery<{}l> q_{};\n", 0x2_0000_0000u64 + rng.below(1 << 16), n)),
+                }
+            }
+            s.push_str("}\n");
+            s.push_str(COMPUTE_TAIL);
+        }
+        "pp_else_after_else" => {
+            // 03ca601: a second #else / an #elif after the #else, in k blocks
+            let ns = names(rng, k);
+            for n in &ns {
+                let open = *rng.pick(&["#if 0\n", "#if 1\n", "#ifdef UNDEFINED_NAME\n", "#ifndef UNDEFINED_NAME\n"]);
+                let second = if rng.chance(1, 2) { "#else\n".to_string() } else { format!("#elif {}\n", rng.below(2)) };
+                s.push_str(&format!("{}static int a_{};\n#else\nstatic int b_{};\n{}static int c_{};\n#endif\n", open, n, n, second, n));
+            }
+            s.push_str(COMPUTE_TAIL);
+        }
+        "pp_if_across_include" => {
+            // 115a619: the #if blocks of an included file have to start and end inside that file
+            let ns = names(rng, k);
+            let mut files: Vec<(String, String)> = Vec::new();
+            let closing = rng.chance(1, 2);
+            for n in &ns {
+                if closing {
+                    // the file closes / continues a block that the includer opened
+                    let body = *rng.pick(&["#else\n", "#endif\n", "#elif 1\n", "static int inner;\n#endif\n"]);
+                    s.push_str(&format!("#if 1\nstatic int a_{};\n#include \"{}.h\"\nstatic int b_{};\n#endif\n", n, n, n));
+                    files.push((format!("{}.h", n), body.to_string()));
+                } else {
+                    // the file leaves a block open
+                    let body = match rng.below(3) {
+                        0 => format!("#if 1\nstatic int open_{};\n", n),
+                        1 => format!("#ifndef GUARD_{}\n#define GUARD_{}\nstatic int open_{};\n", n, n, n),
+                        _ => format!("#if 0\n#else\nstatic int open_{};\n", n),
+                    };
+                    s.push_str(&format!("#include \"{}.h\"\nstatic int t_{};\n#endif\n", n, n));
+                    files.push((format!("{}.h", n), body));
+                }
+            }
+            s.push_str(COMPUTE_TAIL);
+            let mut all = vec![("main.rssl".to_string(), s)];
+            all.extend(files);
+            return Some(DiagProg { files: all, layout: false });
+        }
+        "export_fix2" => {
+            // exporter errors that were panics: e78a598 (mips intermediates), 6017bad (integer constants too large to
+            // print), 4baf400 (struct templates), 774c0b4 (globals of non-resource object types), 9275619 (function
+            // templates that were only declared); k offenders of one kind
+            let ns = names(rng, k);
+            match rng.below(5) {
+                0 => {
+                    s.push_str("Texture2D<float4> g_tex;\nTexture2DArray<float4> g_arr;\n");
+                    for n in &ns {
+                        s.push_str(&format!("template<typename T>\nvoid take_{}(T p)\n{{\n}}\n", n));
+                    }
+                    s.push_str("void body()\n{\n");
+                    for n in &ns {
+                        s.push_str(&format!("    take_{}({}.mips);\n", n, rng.pick(&["g_tex", "g_arr"])));
+                    }
+                    s.push_str("}\n");
+                }
+                1 => {
+                    s.push_str("void body(int sel)\n{\n    switch (sel)\n    {\n");
+                    for (i, _) in ns.iter().enumerate() {
+                        s.push_str(&format!("        case 1 << {}:\n            break;\n", 70 + 3 * i as u64 + rng.below(3)));
+                    }
+                    s.push_str("    }\n}\n");
+                }
+                2 => {
+                    for n in &ns {
+                        s.push_str(&format!("template<typename T>\nstruct Holder_{}\n{{\n    T item_{};\n}};\n", n, n));
+                    }
+                }
+                3 => {
+                    let mut ds: Vec<String> = ns.iter().map(|n| format!("{} g_{};\n", rng.pick(&["RayDesc", "RayQuery<0>", "TriangleStream<float4>"]), n)).collect();
+                    shuffle(rng, &mut ds);
+                    for d in &ds {
+                        s.push_str(d);
+                    }
+                }
+                _ => {
+                    for n in &ns {
+                        s.push_str(&format!("template<typename T>\nvoid only_declared_{}(T p);\n", n));
+                    }
+                    s.push_str("void body()\n{\n");
+                    let mut order: Vec<&String> = ns.iter().collect();
+                    shuffle(rng, &mut order);
+                    for n in order {
+                        s.push_str(&format!("    only_declared_{}({});\n", n, rng.pick(&["1", "1.5", "true"])));
+                    }
+                    s.push_str("}\n");
+                }
+            }
+            s.push_str("[numthreads(1, 1, 1)]\nvoid entry()\n{\n}\nPipeline P\n{\n    ComputeShader = entry;\n}\n");
+        }
+        "export_msl_fix2" => {
+            // Metal exporter errors that were panics: 9824ce3 (double literals), 922a181 (for initialiser mixing an object
+            // and an array of objects), 2ba03a4 (entry point using a global without a binding slot), 791cc36 (vertices /
+            // primitives outputs outside a mesh shader)
+            let ns = names(rng, k);
+            match rng.below(4) {
+                0 => {
+                    s.push_str("void body()\n{\n");
+                    for n in &ns {
+                        s.push_str(&format!("    float v_{} = {};\n", n, rng.pick(&["1e999L", "2.5L", "-1e999L", "0.0L"])));
+                    }
+                    s.push_str("}\n");
+                    s.push_str(COMPUTE_TAIL);
+                }
+                1 => {
+                    s.push_str("ByteAddressBuffer g_raw;\nvoid body()\n{\n");
+                    for n in &ns {
+                        s.push_str(&format!("    for (ByteAddressBuffer a_{} = g_raw, b_{}[2];;)\n    {{\n        break;\n    }}\n", n, n));
+                    }
+                    s.push_str("}\n");
+                    s.push_str(COMPUTE_TAIL);
+                }
+                2 => {
+                    let mut ds: Vec<String> = ns.iter().map(|n| format!("{} g_{};\n", rng.pick(&["float", "int3", "float4x4"]), n)).collect();
+                    shuffle(rng, &mut ds);
+                    for d in &ds {
+                        s.push_str(d);
+                    }
+                    s.push_str("[numthreads(1, 1, 1)]\nvoid entry()\n{\n");
+                    let mut order: Vec<&String> = ns.iter().collect();
+                    shuffle(rng, &mut order);
+                    for n in order {
+                        s.push_str(&format!("    g_{};\n", n));
+                    }
+                    s.push_str("}\nPipeline P\n{\n    ComputeShader = entry;\n}\n");
+                }
+                _ => {
+                    s.push_str("struct Vert\n{\n    float4 pos : SV_Position;\n};\n");
+                    let mut params: Vec<String> = ns.iter().map(|n| format!("out {} Vert v_{}", rng.pick(&["vertices", "primitives"]), n)).collect();
+                    shuffle(rng, &mut params);
+                    s.push_str(&format!("void vs({})\n{{\n}}\nPipeline P\n{{\n    VertexShader = vs;\n}}\n", params.join(", ")));
+                }
+            }
+        }
+        "layout_fix2" => {
+            // 24ea36f (sizes beyond 32 bits), d99f90e (arrays of structured buffers), d25724e (empty structs on Metal),
+            // bdddd35 (arrays of structured buffers behind a typedef of an array)
+            let ns = names(rng, k);
+            let which = rng.below(4);
+            let mut ds: Vec<String> = Vec::new();
+            for n in &ns {
+                match which {
+                    0 => {
+                        let size = *rng.pick(&["4294967295", "4294967296", "1073741824", "3000000000"]);
+                        s.push_str(&format!("struct S_{}\n{{\n    float a[{}];\n}};\n", n, size));
+                        ds.push(format!("StructuredBuffer<S_{}> g_{};\n", n, n));
+                    }
+                    1 => {
+                        s.push_str(&format!("struct S_{}\n{{\n    float a;\n    float2 b;\n}};\n", n));
+                        ds.push(format!("StructuredBuffer<S_{}> g_{}[{}];\n", n, n, 2 + rng.below(3)));
+                    }
+                    2 => {
+                        s.push_str(&format!("struct S_{}\n{{\n    float a;\n    float2 b;\n}};\ntypedef {}StructuredBuffer<S_{}> A_{}[2];\n", n, rng.pick(&["", "const "]), n, n));
+                        ds.push(format!("A_{} g_{}[{}];\n", n, n, 2 + rng.below(3)));
+                    }
+                    _ => {
+                        s.push_str(&format!("struct E_{}\n{{\n}};\nstruct S_{}\n{{\n    E_{} e;\n    float a;\n}};\n", n, n, n));
+                        ds.push(format!("StructuredBuffer<S_{}> g_{};\n", n, n));
+                    }
+                }
+            }
+            shuffle(rng, &mut ds);
+            for d in &ds {
+                s.push_str(d);
+            }
+            s.push_str(COMPUTE_TAIL);
+            return Some(DiagProg { files: vec![("main.rssl".to_string(), s)], layout: true });
+        }
+        "redef_fn_global" => {
+            // 6824b1b: a global variable that takes the name of a function (1-3 overloads) of its scope
+            let ns = names(rng, k);
+            let in_namespace = rng.chance(1, 3);
+            if in_namespace {
+                s.push_str("namespace Outer\n{\n");
+            }
+            for n in &ns {
+                let tys = ["int", "float", "uint"];
+                for o in 0..rng.range(1, 3) as usize {
+                    s.push_str(&format!("{} {}({} p)\n{{\n    return p;\n}}\n", tys[o], n, tys[o]));
+                }
+            }
+            let mut ds: Vec<String> = ns.iter().map(|n| format!("{} {};\n", rng.pick(&["static int", "static const float", "Texture2D<float4>", "groupshared uint"]), n)).collect();
+            shuffle(rng, &mut ds);
+            for d in &ds {
+                s.push_str(d);
+            }
+            if in_namespace {
+                s.push_str("}\n");
+            }
+            s.push_str(COMPUTE_TAIL);
+        }
+        "member_fix2" => {
+            // 92047b7 (a member name that is only a leading ::), 4189835 (swizzle on a constant buffer of a vector)
+            let ns = names(rng, k);
+            s.push_str("struct Pod\n{\n    int x;\n};\n");
+            let cb = rng.chance(1, 2);
+            for n in &ns {
+                if cb {
+                    s.push_str(&format!("ConstantBuffer<float4> cb_{};\n", n));
+                }
+            }
+            s.push_str("void body()\n{\n");
+            let mut uses: Vec<String> = Vec::new();
+            for n in &ns {
+                if cb {
+                    uses.push(format!("    float f_{} = cb_{}.{};\n", n, n, rng.pick(&["x", "xy.x", "w", "rgb.r"])));
+                } else {
+                    uses.push(format!("    Pod s_{};\n    s_{}.::x = 1;\n", n, n));
+                }
+            }
+            shuffle(rng, &mut uses);
+            for u in &uses {
+                s.push_str(u);
+            }
+            s.push_str("}\n");
             s.push_str(COMPUTE_TAIL);
         }
         _ => return None,
